@@ -20,7 +20,8 @@ MANIFEST = {
              'C19_quilt_no_full_build (a selection asks the Bus only for members owning an addressed position). '
              'BATCH: C19_batch_pointwise (a chain of lazily wrapped generators of any depth, with plain and exception-silencing operations, yields and ends '
              'exactly as applying the chain to each label\'s Frame in turn), C19_batch_pool_pointwise (max_workers path: same results, raises iff some label raises), '
-             'C19_batch_pointwise_total, C19_batch_export (to_frame concatenates exactly those results). '
+             'C19_batch_pointwise_total, C19_batch_export (to_frame concatenates exactly those results); on tables regenerated from the source: C19_batch_forwarding_identity, '
+             'C19_batch_reductions_forward_composable, C19_quilt_array_joins_resolved. '
              'Refuted/C19.v: six witnesses, one per known finding. '
              'Correspondence (API level, public calls only): Quilt iloc / loc / __getitem__ on both axes, labels/shape/keys, to_frame/values/head/tail, iterators, '
              'windows (Frame and array), store-backed Buses with max_persist None/1/2/k with store reads logged; Batch chains of depth 1..3 over 45 operations '
@@ -31,13 +32,17 @@ MANIFEST = {
              'Lines abstraction: the model is parametric in what a line is (rows for axis 0, columns for axis 1), the harness transposes. '
              'Batch operations are parameters of the theorems; in the correspondence they are instantiated by the graph of the real Frame/Series methods on the inputs '
              'reached in the case (so the Batch plumbing is modelled, the methods are not). Partial: dtype resolution of mixed-dtype members is only cross-checked on the '
-             'implementation (Python equality); Batch.to_frame with results that need a union/fill is not modelled; process pools (use_threads=False) and store formats other '
-             'than zip-pickle are not run; Quilt has no iter_element in this version. The name of a Frame result is not part of S (M models it).'),
+             'implementation (Python equality); Batch.to_frame with results that need a union/fill or have zero width is not modelled; process pools (use_threads=False) are not run; '
+             'of the store formats zip_pickle, zip_tsv, zip_csv and sqlite are run (text labels, int64 cells), zip_parquet / xlsx / hdf5 cannot be (pyarrow, xlsxwriter, tables are not installed); '
+             'Quilt._extract_array is also called directly (kernel stratum) with int / list / full keys no public caller passes, Boolean-array keys excluded (it rejects them); '
+             'the Quilt/Batch meta interface (name, rename, get, nbytes, status, repr, display, keys, values, shapes, to_zip_pickle) is checked on the implementation only; '
+             'Quilt has no iter_element in this version. The name of a Frame result is not part of S (M models it). '
+             'Gen/Gen_c19.v (regenerated every run): the keyword forwarding table of every Batch method and the callees of Quilt._extract_array return statements.'),
     'technique': 'refinement proof M=S over segmented sequences / generator chains + differential correspondence',
 }
 PROPERTY_FILES = ['Properties/C19.v']
 REFUTED_FILES = ['Refuted/C19.v']
-MODEL_FILES = ['SF/Quilt.v', 'SF/BatchView.v']
+MODEL_FILES = ['SF/Quilt.v', 'SF/BatchView.v', 'Gen/Gen_c19.v']
 IMPORTS = 'Require Import SF.Prelude SF.PySlice SF.Value SF.Quilt SF.BatchView.'
 RULE = ('Quilt: Buses of 1..4 member Frames (0..3 lines each, distinct int64 cells, random block layouts) over a shared opposite axis, both Quilt axes, retain_labels on/off, '
         'member labels str/int, shared across members when retained; keys: every int in [-n-1,n], every slice with bounds in None,-n-1..n+1 and step None,1,2,-1,-2, every Boolean '
@@ -50,6 +55,73 @@ ASSUMPTIONS = ['NumPy integer/slice/mask indexing = key_positions (norm_index, P
                'a Series over an IndexHierarchy (the axis map) rejects repeated positions and owner sequences not in tree form (observed; D14)',
                'Batch operations: any function container -> result | exception; instantiated by tabulating the real methods']
 EXHAUSTIVE = {'quick': False, 'thorough': False}
+
+
+GENERATED_FILES = ['Gen/Gen_c19.v']
+
+
+# ---------------------------------------------------------------------------- decisions read from the source on every run
+def generate(repo):
+    """Two dispatch facts the models take for granted, read from the AST of /repo on every run (fail closed):
+    * every Batch method that forwards to the member Frames (`return self._apply_attr(attr=..., kw=value, ...)`) hands each of
+      its keyword arguments on UNCHANGED (kw=kw) -- the model treats a Batch operation as "that operation on each Frame";
+    * Quilt._extract_array joins its parts only with the dtype-resolving concat_resolved (or hands a single part to the
+      extractor) -- the model keeps the class of every cell.
+    Properties/C19.v proves both about the tables generated here."""
+    import ast
+    import os
+
+    def cs(text):
+        return '"' + text.replace('"', '""') + '"'
+    core = os.path.join(repo, 'static_frame', 'core')
+    with open(os.path.join(core, 'batch.py')) as f:
+        tree = ast.parse(f.read())
+    batch = next(n for n in tree.body if isinstance(n, ast.ClassDef) and n.name == 'Batch')
+    rows = []
+    for fn in batch.body:
+        if not isinstance(fn, ast.FunctionDef):
+            continue
+        for node in ast.walk(fn):
+            if (isinstance(node, ast.Call) and isinstance(node.func, ast.Attribute) and node.func.attr == '_apply_attr'
+                    and isinstance(node.func.value, ast.Name) and node.func.value.id == 'self'):
+                if node.args:
+                    raise ValueError(f'Batch.{fn.name}: positional arguments to _apply_attr')
+                attr, kws = None, []
+                for kw in node.keywords:
+                    if kw.arg is None:
+                        raise ValueError(f'Batch.{fn.name}: **kwargs forwarded')
+                    if kw.arg == 'attr':
+                        if not (isinstance(kw.value, ast.Constant) and isinstance(kw.value.value, str)):
+                            raise ValueError(f'Batch.{fn.name}: attr is not a string constant')
+                        attr = kw.value.value
+                    else:
+                        kws.append((kw.arg, kw.value.id if isinstance(kw.value, ast.Name) else '<' + type(kw.value).__name__ + '>'))
+                if attr is None:
+                    raise ValueError(f'Batch.{fn.name}: _apply_attr without attr=')
+                rows.append((fn.name, attr, kws))
+    if len(rows) < 30 or not any(r[0] == '_ufunc_axis_skipna' for r in rows):
+        raise ValueError(f'only {len(rows)} forwarding Batch methods found: batch.py changed shape')
+    with open(os.path.join(core, 'quilt.py')) as f:
+        qtree = ast.parse(f.read())
+    quilt = next(n for n in qtree.body if isinstance(n, ast.ClassDef) and n.name == 'Quilt')
+    xa = next(n for n in quilt.body if isinstance(n, ast.FunctionDef) and n.name == '_extract_array')
+    joins = []
+    for node in ast.walk(xa):
+        if isinstance(node, ast.Return) and node.value is not None:
+            v = node.value
+            if not isinstance(v, ast.Call):
+                raise ValueError('Quilt._extract_array returns something that is not a call')
+            joins.append(ast.unparse(v.func))
+    if len(joins) < 4:
+        raise ValueError('Quilt._extract_array: fewer return statements than expected')
+    lines = ['(* GENERATED on every run by tools/sfv/props/c19.py:generate from static_frame/core/batch.py and quilt.py -- do not edit *)',
+             'Require Import SF.Prelude.', 'Local Open Scope string_scope.', '',
+             '(* (Batch method, attribute called on each member, [(keyword handed on, the expression it is given)]) *)',
+             'Definition batch_forward : list (string * string * list (string * string)) := [']
+    lines.append(';\n'.join('  (%s, %s, [%s])' % (cs(m), cs(a), '; '.join(f'({cs(k)}, {cs(v)})' for k, v in kws)) for m, a, kws in rows))
+    lines += ['].', '', '(* the callee of every return statement of Quilt._extract_array *)',
+              'Definition quilt_array_returns : list string := [' + '; '.join(cs(j) for j in joins) + '].', '']
+    return {'Gen/Gen_c19.v': '\n'.join(lines)}
 
 
 # ---------------------------------------------------------------------------- building
@@ -304,7 +376,8 @@ SIZES_MORE = [(1,), (2,), (1, 1), (1, 2), (2, 2), (3, 1), (2, 0, 1), (1, 1, 1), 
 def make_quilt(spec, rng):
     import static_frame as sf
     frames = spec.frames(rng)
-    q = sf.Quilt.from_items(frames, axis=spec.axis, retain_labels=spec.retain)
+    # deepcopy_from_bus only changes who owns the arrays (get_extractor, quilt.py:50-64): every answer must stay the same
+    q = sf.Quilt.from_items(frames, axis=spec.axis, retain_labels=spec.retain, deepcopy_from_bus=bool(rng.randrange(2)))
     return q, frames
 
 
@@ -624,10 +697,14 @@ def iter_cases(ctx):
         qlit = spec.coq()
         along = 1 if spec.axis == 0 else 0       # iter_*(axis=1) walks rows, axis=0 walks columns
         opp_labels = spec.opp
-        for name in ('iter_array_items', 'iter_series_items', 'iter_tuple_items', 'items', 'iter_array', 'iter_series', 'iter_tuple'):
+        import collections
+        ctors = {'tuple': tuple, 'namedtuple': collections.namedtuple('Line', [f'x{j}' for j in range(len(opp_labels))])}
+        for name in ('iter_array_items', 'iter_series_items', 'iter_tuple_items', 'items', 'iter_array', 'iter_series', 'iter_tuple',
+                     'iter_tuple_items@tuple', 'iter_tuple@namedtuple'):
+            name, _, ctor = name.partition('@')
             for ax in (along, 1 - along):
                 cross = ax != along
-                if cross and 'tuple' in name:
+                if cross and 'tuple' in name and not ctor:
                     continue      # the namedtuple fields would be the Quilt-axis labels (ints, tuples): rejected before any iteration
                 if name == 'items':
                     if ax != 0:
@@ -635,8 +712,8 @@ def iter_cases(ctx):
                     call = 'quilt.items()'
                     gen = lambda: list(q.items())
                 else:
-                    call = f'quilt.{name}(axis={ax})'
-                    gen = (lambda nm=name, a=ax: list(getattr(q, nm)(axis=a)))
+                    call = f'quilt.{name}(axis={ax}' + (f', constructor={ctor})' if ctor else ')')
+                    gen = (lambda nm=name, a=ax, c=ctor: list(getattr(q, nm)(axis=a, constructor=ctors[c]) if c else getattr(q, nm)(axis=a)))
                 py_fail = None
                 try:
                     got = gen()
@@ -653,7 +730,8 @@ def iter_cases(ctx):
                         elif isinstance(v, np.ndarray):
                             vals = lit.array_vals(v)
                         else:
-                            if list(getattr(v, '_fields', ())) != list(opp_labels):
+                            want_f = list(ctors['namedtuple']._fields) if ctor == 'namedtuple' else ([] if ctor else list(opp_labels))
+                            if list(getattr(v, '_fields', ())) != want_f:
                                 py_fail = f'{call}: tuple fields {getattr(v, "_fields", None)} != {opp_labels}'
                             vals = list(v)
                         pairs.append((lab, vals))
@@ -669,7 +747,7 @@ def iter_cases(ctx):
                 m = f'res_eqb ({pair}) (M_iter_cross {qlit}) {out}' if cross else f'res_eqb ({pair}) (M_iter_items {qlit}) {out}'
                 s_ = f'res_eqb ({pair}) (S_iter_cross {qlit}) {out}' if cross else f'res_eqb ({pair}) (S_iter_items {qlit}) {out}'
                 yield Case('api:quilt.iter', {'call': call, 'quilt': spec.desc(), 'observed': _jsonable(js)}, m=m, s=s_, py_fail=py_fail, tags=tags,
-                           nontrivial=len(spec.members) > 1, key=f'iter{spec_key(spec)}{name}{ax}')
+                           nontrivial=len(spec.members) > 1, key=f'iter{spec_key(spec)}{name}{ctor}{ax}')
 
 
 # ---------------------------------------------------------------------------- windows
@@ -715,8 +793,14 @@ def window_cases(ctx):
                 if finding is None and not along_sel and size > 0 and step >= 0:
                     if any(len(range(nlab)[k]) == 0 for k in window_keys_py(nlab, size, step, lshift, sshift, sinc)):
                         continue       # an empty opposite-axis window is the member Frame's business (C03/C04), not the Quilt's
+                py_fail_w = None
                 try:
                     got = list(getattr(q, name)(**kw))
+                    plain = list(getattr(q, name[:-len('_items')])(**kw))       # iter_window / iter_window_array
+                    same = len(plain) == len(got) and all((np.array_equal(a_, b2[1]) if as_array else a_.equals(b2[1], compare_name=True))
+                                                          for a_, b2 in zip(plain, got))
+                    if not same:
+                        py_fail_w = f'quilt.{name[:-6]}(**kw) does not yield the windows of quilt.{name}(**kw)'
                     items = []
                     for lab, w in got:
                         lab = tuple(lab) if isinstance(lab, tuple) else lab
@@ -745,7 +829,7 @@ def window_cases(ctx):
                     m = f'{eq} (M_windows {qlit} {lit.b(along_sel)} {p}) {out}'
                     s_ = f'{eq} (S_windows {qlit} {lit.b(along_sel)} {p}) {out}'
                 yield Case('api:quilt.window', {'call': f'list(quilt.{name}(**kw))', 'kw': kw, 'quilt': spec.desc(), 'observed': _jsonable(js)},
-                           m=m, s=s_, tags=tags, nontrivial=len(spec.members) > 1 and size > 1,
+                           m=m, s=s_, py_fail=py_fail_w, tags=tags, nontrivial=len(spec.members) > 1 and size > 1,
                            key=f'win{spec_key(spec)}{sorted(kw.items())}{as_array}')
 
 
@@ -764,8 +848,18 @@ def store_cases(ctx):
             qmem = sf.Quilt.from_items(frames, axis=spec.axis, retain_labels=spec.retain)
             n = spec.n()
             qlit = spec.coq()
-            for mp in (None, 1, 2, len(frames)):
-                q = sf.Quilt.from_zip_pickle(fp, axis=spec.axis, retain_labels=spec.retain, max_persist=mp)
+            # other store formats carry the same Frames when labels are text and cells int64 (the codecs themselves are C16/C17's)
+            plain = all(isinstance(l, str) for m_ in spec.members for l in m_[1])
+            fmts = [('zip_pickle', mp_) for mp_ in (None, 1, 2, len(frames))]
+            if plain:
+                fmts += [(('zip_tsv', 'zip_csv', 'sqlite')[(k + j_) % 3], (1, None)[j_]) for j_ in (0, 1)]
+            for fmt, mp in fmts:
+                if fmt == 'zip_pickle':
+                    q = sf.Quilt.from_zip_pickle(fp, axis=spec.axis, retain_labels=spec.retain, max_persist=mp)
+                else:
+                    fp2 = os.path.join(d, f'bus{k}_{fmt}' + ('.sqlite' if fmt == 'sqlite' else '.zip'))
+                    getattr(sf.Bus.from_items(frames), 'to_' + fmt)(fp2)
+                    q = getattr(sf.Quilt, 'from_' + fmt)(fp2, config=sf.StoreConfig(index_depth=1), axis=spec.axis, retain_labels=spec.retain, max_persist=mp)
                 store = q._bus._store
                 log = []
                 orig_many = store.read_many
@@ -777,7 +871,7 @@ def store_cases(ctx):
                 store.read_many = read_many
                 shape = q.shape            # builds the axis map: walks the whole Bus once
                 last = frames[-1][0]
-                keys = [kk for kk in sample_keys(ctx, n, ctx.n(8, 40)) if kk is not None] + [None]
+                keys = [kk for kk in sample_keys(ctx, n, ctx.n(6, 40)) if kk is not None] + [None]
                 for sel in keys:
                     ps = key_positions(sel, n)
                     finding = classify_ps(spec, ps, sel is None)
@@ -796,21 +890,23 @@ def store_cases(ctx):
                         py_fail = f'selection addressing members {sorted(addressed)} read {reads} from the store'
                     if mp is not None and int(q._bus._loaded.sum()) > mp:
                         py_fail = f'{int(q._bus._loaded.sum())} member Frames held with max_persist={mp}'
-                    tags = {'op': 'store-iloc', 'axis': spec.axis, 'retain': spec.retain, 'max_persist': mp, 'sel': key_kind(sel)}
+                    tags = {'op': 'store-iloc', 'axis': spec.axis, 'retain': spec.retain, 'max_persist': mp, 'sel': key_kind(sel), 'format': fmt}
                     if finding:
                         tags['finding'] = finding
-                    ctx.count(f'store:max_persist={mp}', f'store:reads={len(reads)}')
+                    ctx.count(f'store:max_persist={mp}', f'store:reads={len(reads)}', f'store:format={fmt}')
                     m = None
-                    if mp == 1:
+                    if fmt != 'zip_pickle':
+                        m = None      # only the zip-pickle store is instrumented
+                    elif mp == 1:
                         curl = f'(Some {lit.val(cur)})' if cur is not None else 'None'
                         m = (f'vlist_eqb (reads_persist1 {curl} (M_touched_key {qlit} {key_coq(sel)} KAll)) {lit.vlist(reads)}')
                     elif mp is None:
                         m = f'vlist_eqb [] {lit.vlist(reads)}'
-                    yield Case('api:quilt.store', {'call': 'Quilt.from_zip_pickle(fp, axis, retain_labels, max_persist).iloc[key]; store reads logged',
+                    yield Case('api:quilt.store', {'call': f'Quilt.from_{fmt}(fp, axis, retain_labels, max_persist).iloc[key]; store reads logged',
                                                    'quilt': spec.desc(), 'max_persist': mp, 'sel_key': key_json(sel), 'loaded_before': loaded_before,
                                                    'store_reads': reads, 'observed': _jsonable(js)},
                                m=m, s=f'qs_eqb (S_extract {qlit} {key_coq(sel)} KAll) {out}', py_fail=py_fail, tags=tags,
-                               nontrivial=len(addressed) < len(spec.members), key=f'store{spec_key(spec)}{mp}{key_json(sel)}')
+                               nontrivial=len(addressed) < len(spec.members), key=f'store{spec_key(spec)}{fmt}{mp}{key_json(sel)}')
 
 
 # ---------------------------------------------------------------------------- Quilt.from_frame: a Frame cut into chunks is that Frame
@@ -862,6 +958,155 @@ def from_frame_cases(ctx):
                                    s=f'qs_eqb (S_extract {qlit} {key_coq(sel)} {key_coq(opp)}) {out}',
                                    py_fail=py_fail, tags=tags, nontrivial=spans >= 2,
                                    key=f'ff{axis}{retain}{n}{chunk}{key_json(sel)}{key_json(opp)}')
+
+
+# ---------------------------------------------------------------------------- kernel: Quilt._extract_array called directly
+def extract_array_cases(ctx):
+    """The public window iterators only ever hand slices to _extract_array; its int / list / full-Bus routes
+    (quilt.py:850-859, 880, 889-897, 905-907) are reached by calling it as axis_window_items does, with every key kind."""
+    for spec in itertools.chain(small_specs(ctx, [(2, 2, 1), (3,), (2, 1)], [(1, 1, 1, 1), (3, 2)]), mixed_specs(ctx)):
+        q, frames = make_quilt(spec, ctx.rng)
+        q.shape
+        qlit = spec.coq()
+        n = spec.n()
+        oks = [None, 0, -1, [len(spec.opp) - 1, 0], slice(1, None)]
+        # no Boolean-array keys: unlike _extract, _extract_array compares its keys with NULL_SLICE unguarded (an array there is a
+        # ValueError) and no public caller hands it one
+        for i, sel in enumerate([k_ for k_ in sample_keys(ctx, n, ctx.n(10, 60)) if not isinstance(k_, np.ndarray)] + [None, None]):
+            opp = None if i % 2 else oks[ctx.rng.randrange(len(oks))]
+            rk, ck = (sel, opp) if spec.axis == 0 else (opp, sel)
+            try:
+                r = q._extract_array(rk, ck)
+                if isinstance(r, np.ndarray) and r.ndim == 2:
+                    lines = r.tolist() if spec.axis == 0 else r.T.tolist()
+                    out, js = f'(Ok (AArr2 {lit.lst([lit.vlist(l) for l in lines])}))', {'array2d(lines)': lines}
+                elif isinstance(r, np.ndarray) and r.ndim == 1:
+                    out, js = f'(Ok (AArr1 {lit.vlist(lit.array_vals(r))}))', {'array1d': lit.array_vals(r)}
+                else:
+                    out, js = f'(Ok (AElem {lit.val(r)}))', {'element': r}
+            except Exception as e:  # noqa
+                cls = 'RuntimeError' if isinstance(e, StopIteration) else lit.err_class(e)   # what it becomes inside the window generator
+                out, js = f'(Err {lit.s(cls)})', {'error': cls}
+            finding, ps = classify(spec, sel)
+            tags = {'op': '_extract_array', 'axis': spec.axis, 'retain': spec.retain, 'sel': key_kind(sel), 'opp': key_kind(opp)}
+            if finding:
+                tags['finding'] = finding
+            ctx.count('extract_array:sel=' + key_kind(sel), 'extract_array:opp=' + key_kind(opp))
+            yield Case('kernel:quilt._extract_array', {'call': 'quilt._extract_array(row_key, column_key)', 'quilt': spec.desc(), 'sel_key(along quilt axis)': key_json(sel),
+                                                      'opposite_key': key_json(opp), 'observed': _jsonable(js)},
+                       m=f'res_eqb ares_eqb (M_extract_array {qlit} {key_coq(sel)} {key_coq(opp)}) {out}',
+                       s=f'res_eqb ares_eqb (S_extract_array {qlit} {key_coq(sel)} {key_coq(opp)}) {out}',
+                       tags=tags, nontrivial=bool(ps) and len({spec.owners()[p_] for p_ in ps}) >= 2,
+                       key=f'xa{spec_key(spec)}{key_json(sel)}{key_json(opp)}')
+
+
+# ---------------------------------------------------------------------------- the rest of the Quilt interface
+def meta_cases(ctx):
+    import os
+    import tempfile
+    import static_frame as sf
+    with tempfile.TemporaryDirectory(prefix='c19m_') as d:
+        for k, spec in enumerate(small_specs(ctx, [(2, 2, 1), (3,), (2, 1)], [(1, 1, 1, 1), (3, 2)])):
+            frames = spec.frames(ctx.rng)
+            q = sf.Quilt.from_items(frames, axis=spec.axis, retain_labels=spec.retain, name='qn')
+            cf = concat_frame(spec, frames)
+            why = []
+            try:
+                if q.name != 'qn':
+                    why.append(f'name {q.name!r}')
+                q2 = q.rename('other')
+                if q2.name != 'other' or q.name != 'qn' or not q2.to_frame().equals(cf) or q2.shape != q.shape:
+                    why.append('rename changed more than the name')
+                q.shape
+                q3 = q.rename('late')       # after the axis map exists: it is handed on
+                if not q3.iloc[0].equals(q.iloc[0]) or lit.labels(q3.index) != lit.labels(q.index):
+                    why.append('rename after first use changed selections')
+                for col in lit.labels(cf.columns)[:2]:
+                    key = sf.HLoc[col[0], col[1]] if isinstance(col, tuple) else col
+                    a, b_ = q.get(key), cf[key]
+                    if a is None or not a.equals(b_, compare_name=True):
+                        why.append(f'get({col!r}) != concatenated Frame column')
+                if q.get('no-such-column') is not None or q.get('no-such-column', 7) != 7:
+                    why.append('get(absent) does not give the default')
+                if q.nbytes != sum(f.nbytes for _, f in frames) or q.size != cf.size or q.ndim != 2:
+                    why.append(f'nbytes/size/ndim {q.nbytes}/{q.size}/{q.ndim}')
+                if not q.status.equals(q._bus.status) or list(q.status.index) != [b for b, _ in frames]:
+                    why.append('status is not the Bus status')
+                if 'Quilt' not in repr(q) or 'qn' not in repr(q):
+                    why.append(f'repr {q!r}')
+                if str(q.display()) != str(q.to_frame().display()):
+                    why.append('display() is not the display of the consolidated Frame')
+                fp = os.path.join(d, f'q{k}.zip')
+                q.to_zip_pickle(fp)          # StoreClientMixin over Quilt._items_store: the member Frames under their Bus labels
+                back = sf.Bus.from_zip_pickle(fp)
+                if [b for b, _ in back.items()] != [b for b, _ in frames] or not all(g.equals(f) for (_, g), (_, f) in zip(back.items(), frames)):
+                    why.append('to_zip_pickle did not store the member Frames')
+            except Exception as e:  # noqa
+                why.append(f'raised {type(e).__name__}: {e}')
+            ctx.count('meta')
+            yield Case('api:quilt.meta', {'call': 'Quilt name/rename/get/nbytes/size/status/repr/display/to_zip_pickle vs Bus and concatenated Frame', 'quilt': spec.desc()},
+                       py_fail='; '.join(why) or None, tags={'op': 'meta', 'axis': spec.axis, 'retain': spec.retain}, nontrivial=len(frames) > 1, key='meta' + spec_key(spec))
+
+
+# ---------------------------------------------------------------------------- function application over the iterators
+def iter_apply_cases(ctx):
+    """IterNodeDelegate.apply / apply_iter / apply_iter_items / apply_pool and window_func / window_valid, with the Quilt as the
+    container: the same calls on the concatenated Frame are the reference (functions depend on label AND line)."""
+    import static_frame as sf
+
+    def norm(r):
+        if isinstance(r, sf.Series):
+            return ('Series', lit.labels(r.index), lit.array_vals(r.values), r.name)
+        if isinstance(r, sf.Frame):
+            return ('Frame', lit.labels(r.index), lit.labels(r.columns), r.values.tolist())
+        return [((tuple(k) if isinstance(k, tuple) else k), v) if isinstance(x, tuple) and len(x) == 2 else x for x in r for k, v in [x if isinstance(x, tuple) and len(x) == 2 else (None, None)]]
+    for spec in itertools.chain(small_specs(ctx, [(2, 2, 1), (3,), (2, 1)], [(1, 1, 1, 1), (3, 2)]), list(mixed_specs(ctx))[:4]):
+        mixed = bool(getattr(spec, 'kinds', None))
+        q, frames = make_quilt(spec, ctx.rng)
+        cf = concat_frame(spec, frames)
+        a = 1 if spec.axis == 0 else 0
+        tot = (lambda v: '|'.join(str(x) for x in v)) if mixed else (lambda v: int(np.sum(v)) * 3 + int(v[0]))
+        routes = [
+            ('iter_series(axis).apply(f)', lambda x: x.iter_series(axis=a).apply(lambda s_: tot(s_.values))),
+            ('iter_array(axis).apply(f, name=)', lambda x: x.iter_array(axis=a).apply(lambda v: tot(v), name='nm')),
+            ('iter_series_items(axis).apply(f(label, line))', lambda x: x.iter_series_items(axis=a).apply(lambda k, s_: f'{k}:{tot(s_.values)}')),
+            ('iter_array_items(axis).apply(f(label, line))', lambda x: x.iter_array_items(axis=a).apply(lambda k, v: f'{k}:{tot(v)}')),
+            ('iter_tuple(axis).apply(f)', lambda x: x.iter_tuple(axis=a).apply(lambda t: tot(tuple(t)))),
+            ('iter_series(axis).apply_iter(f)', lambda x: list(x.iter_series(axis=a).apply_iter(lambda s_: tot(s_.values)))),
+            ('iter_array(axis).apply_iter_items(f)', lambda x: list(x.iter_array(axis=a).apply_iter_items(lambda v: tot(v)))),
+            ('iter_array(axis).apply_pool(f, threads)', lambda x: x.iter_array(axis=a).apply_pool(tot, use_threads=True, max_workers=2)),
+            ('iter_window(size=2).apply(f)', lambda x: x.iter_window(size=2, axis=spec.axis).apply(lambda w: tot(w.values.ravel()))),
+            ('iter_window_array(size=2, step=2).apply(f)', lambda x: x.iter_window_array(size=2, step=2, axis=spec.axis).apply(lambda w: tot(w.ravel()))),
+            ('iter_window_items(size=2, window_func, window_valid)',
+             lambda x: list(x.iter_window_items(size=2, axis=spec.axis, window_func=lambda w: tot(w.values.ravel()), window_valid=lambda w: w.shape[spec.axis] == 2 and w.values.ravel()[0] != 13))),
+            ('iter_window_array_items(size=1, window_func)', lambda x: list(x.iter_window_array_items(size=1, axis=spec.axis, window_func=lambda w: tot(w.ravel())))),
+        ]
+        # element-wise mappings over hashable lines (tuples): some, all, and with a fill
+        lines_t = [tuple(ln) for m_ in spec.members for ln in m_[2]]
+        some = {t: f'hit{i_}' for i_, t in enumerate(lines_t) if i_ % 2 == 0}
+        every = {t: i_ * 7 for i_, t in enumerate(lines_t)}
+        routes += [
+            ('iter_tuple(axis, constructor=tuple).map_any(mapping)', lambda x: x.iter_tuple(axis=a, constructor=tuple).map_any(some)),
+            ('iter_tuple(axis, constructor=tuple).map_fill(mapping, fill_value)', lambda x: x.iter_tuple(axis=a, constructor=tuple).map_fill(some, fill_value='none')),
+            ('iter_tuple(axis, constructor=tuple).map_all(mapping)', lambda x: x.iter_tuple(axis=a, constructor=tuple).map_all(every)),
+            ('iter_tuple(axis, constructor=tuple).map_all_iter_items(mapping)', lambda x: list(x.iter_tuple(axis=a, constructor=tuple).map_all_iter_items(every))),
+            ('iter_tuple(axis, constructor=tuple).map_any_iter(mapping)', lambda x: list(x.iter_tuple(axis=a, constructor=tuple).map_any_iter(some))),
+        ]
+        for name, fn in routes:
+            def run(x):
+                try:
+                    r = fn(x)
+                    if isinstance(r, list):
+                        return [(tuple(k) if isinstance(k, tuple) else k, v) if isinstance(kv, tuple) else kv for kv in r for k, v in [kv if isinstance(kv, tuple) else (None, kv)]]
+                    return norm(r)
+                except Exception as e:  # noqa
+                    return ('ERR', lit.err_class(e))
+            got, want = run(q), run(cf)
+            ctx.count('iter-apply:' + name.split('(')[0])
+            yield Case('api:quilt.iter-apply', {'call': 'quilt.' + name + ' vs the same on Frame.from_concat[_items](bus frames)', 'quilt': spec.desc(), 'observed': str(got)[:400]},
+                       py_fail=None if _jsonable(got) == _jsonable(want) else f'quilt gives {str(got)[:300]}, the concatenated Frame gives {str(want)[:300]}',
+                       tags={'op': 'iter-apply', 'axis': spec.axis, 'retain': spec.retain, 'route': name}, nontrivial=len(frames) > 1,
+                       key=f'ia{spec_key(spec)}{name}')
 
 
 # ---------------------------------------------------------------------------- malformed Buses, mixed dtypes (decided on the implementation)
@@ -1016,6 +1261,30 @@ def batch_ops():
     add('roll(1)', lambda b: b.roll(1), lambda c: c.roll(1), impl=lambda c: c.roll(index=1, columns=0, include_index=False, include_columns=False))
     add('isin((10, 13))', lambda b: b.isin((10, 13)), lambda c: c.isin((10, 13)))
     add('clip(lower=11, upper=14)', lambda b: b.clip(lower=11, upper=14), lambda c: c.clip(lower=11, upper=14), impl=lambda c: c.clip(lower=11, upper=14, axis=None))
+    # the remaining Batch methods (each forwards Frame keyword arguments through _apply_attr)
+    import static_frame as sf
+    bkey = sf.Frame.from_records([[True, False], [False, True]], index=('r0', 'r1'), columns=('c0', 'c1'))
+    add('bloc[bool Frame]', lambda b: b.bloc[bkey], lambda c: c.bloc[bkey])
+    add("drop.loc['r1']", lambda b: b.drop.loc['r1'], lambda c: c.drop.loc['r1'])
+    add("drop['c0']", lambda b: b.drop['c0'], lambda c: c.drop['c0'], impl=lambda c: c._drop_getitem(key='c0'))    # a Series has drop[...] but no _drop_getitem
+    add('sort_columns(ascending=False)', lambda b: b.sort_columns(ascending=False), lambda c: c.sort_columns(ascending=False))
+    add("sort_values('c1', ascending=False)", lambda b: b.sort_values('c1', ascending=False), lambda c: c.sort_values('c1', ascending=False),
+        impl=lambda c: c.sort_values(label='c1', ascending=False, axis=1, kind='mergesort'))
+    add('duplicated()', lambda b: b.duplicated(), lambda c: c.duplicated(), impl=lambda c: c.duplicated(axis=0, exclude_first=False, exclude_last=False))
+    add('duplicated(axis=1, exclude_first=True)', lambda b: b.duplicated(axis=1, exclude_first=True), lambda c: c.duplicated(axis=1, exclude_first=True),
+        impl=lambda c: c.duplicated(axis=1, exclude_first=True, exclude_last=False))
+    add('drop_duplicated()', lambda b: b.drop_duplicated(), lambda c: c.drop_duplicated(), impl=lambda c: c.drop_duplicated(axis=0, exclude_first=False, exclude_last=False))
+    add('round(., 0)', lambda b: round(b, 0), lambda c: round(c, 0))
+    add('sample(index=1, seed=3)', lambda b: b.sample(index=1, seed=3), lambda c: c.sample(index=1, seed=3), impl=lambda c: c.sample(index=1, columns=None, seed=3))
+    for nm in ('loc_min', 'iloc_min', 'loc_max', 'iloc_max'):
+        add(f'{nm}()', (lambda b, n_=nm: getattr(b, n_)()), (lambda c, n_=nm: getattr(c, n_)()), impl=(lambda c, n_=nm: getattr(c, n_)(skipna=True, axis=0)))
+    add('loc_max(axis=1)', lambda b: b.loc_max(axis=1), lambda c: c.loc_max(axis=1), impl=lambda c: c.loc_max(skipna=True, axis=1))
+    add('iloc_min(skipna=False, axis=1)', lambda b: b.iloc_min(skipna=False, axis=1), lambda c: c.iloc_min(skipna=False, axis=1))
+    add('cov()', lambda b: b.cov(), lambda c: c.cov(), impl=lambda c: c.cov(axis=1, ddof=1))
+    add('unique()', lambda b: b.unique(), lambda c: c.unique(), impl=lambda c: c.unique(axis=None))
+    add('unique(axis=0)', lambda b: b.unique(axis=0), lambda c: c.unique(axis=0))
+    add('cumsum()', lambda b: b.cumsum(), lambda c: c.cumsum())
+    add('cumprod(axis=1, skipna=False)', lambda b: b.cumprod(axis=1, skipna=False), lambda c: c.cumprod(axis=1, skipna=False))
     return ops
 
 
@@ -1063,9 +1332,32 @@ def batch_frame_sets():
 
 
 def batch_cases(ctx):
+    import shutil
+    import tempfile
+    d = tempfile.mkdtemp(prefix='c19b_')
+    try:
+        yield from _batch_cases(ctx, d)
+    finally:
+        shutil.rmtree(d, ignore_errors=True)
+
+
+def _batch_cases(ctx, store_dir):
+    import os
     import static_frame as sf
     ops = batch_ops()
     sets = batch_frame_sets()
+    stored = {}
+    for sn_, prs in sets.items():
+        if sn_ != '_flat' and all(isinstance(l, str) and l == f.name for l, f in prs):
+            stored[sn_] = os.path.join(store_dir, sn_ + '.zip')
+            sf.Bus.from_items(prs).to_zip_pickle(stored[sn_])
+    # text and SQL stores carry text labels and int64 cells unchanged (the codecs are C16/C17's): three more ways in
+    text_stored = {}
+    for sn_ in ('ragged-int', 'aligned-int', 'single'):
+        for fmt in ('zip_tsv', 'zip_csv', 'sqlite'):
+            fp_ = os.path.join(store_dir, f'{sn_}_{fmt}' + ('.sqlite' if fmt == 'sqlite' else '.zip'))
+            getattr(sf.Bus.from_items(sets[sn_]), 'to_' + fmt)(fp_)
+            text_stored[sn_, fmt] = fp_
     flat_twin = sets.pop('_flat')
     block_sets = ['blocks-float', 'blocks-nan', 'blocks-int']
     general = [i for i in range(len(ops)) if not ops[i]['grid']]
@@ -1142,8 +1434,20 @@ def batch_cases(ctx):
             tables, alive, series_kwargs, s_failed = reference('direct')
             tables_m, _, _, _ = reference('impl')
             # ---- the Batch
+            # three ways to the same Batch: items, from_frames (labels from names), a zip-pickle store read lazily
+            source = ('items', 'from_frames', 'zip_pickle')[ci % 3] if sn in stored else 'items'
+            if (sn, 'sqlite') in text_stored and ci % 4 == 3:
+                source = ('zip_tsv', 'zip_csv', 'sqlite')[(ci // 4) % 3]
+
             def run():
-                b = sf.Batch(iter(pairs_), name='bn', **kw)
+                if source == 'from_frames':
+                    b = sf.Batch.from_frames(frames, name='bn', **kw)
+                elif source == 'zip_pickle':
+                    b = sf.Batch.from_zip_pickle(stored[sn], **kw).rename('bn')
+                elif source in ('zip_tsv', 'zip_csv', 'sqlite'):
+                    b = getattr(sf.Batch, 'from_' + source)(text_stored[sn, source], config=sf.StoreConfig(index_depth=1), **kw).rename('bn')
+                else:
+                    b = sf.Batch(iter(pairs_), name='bn', **kw)
                 for oi in chain:
                     b = ops[oi]['batch'](b)
                 return b
@@ -1168,7 +1472,9 @@ def batch_cases(ctx):
             btags = {'op': 'batch', 'depth': len(chain), 'pool': bool(kw)}
             if series_kwargs:
                 btags['finding'] = 'C19-batch-series-kwargs' 
-            desc = {'call': "sf.Batch(iter(label_frame_pairs), name='bn', **kw)" + ''.join(f' |> {ops[i]["desc"]}' for i in chain) + ' ; list(batch.items())',
+            how = {'items': "sf.Batch(iter(label_frame_pairs), name='bn', **kw)", 'from_frames': "sf.Batch.from_frames(frames, name='bn', **kw)",
+                   'zip_pickle': "sf.Batch.from_zip_pickle(fp, **kw).rename('bn')"}.get(source, f"sf.Batch.from_{source}(fp, config=StoreConfig(index_depth=1), **kw).rename('bn')")
+            desc = {'call': how + ''.join(f' |> {ops[i]["desc"]}' for i in chain) + ' ; list(batch.items())',
                     'frames': sn, 'kw': kw, 'chain': [ops[i]['desc'] for i in chain], 'observed': _jsonable(js)}
             ctx.count(f'batch:depth{len(chain)}', f'batch:frames={sn}', 'batch:pool' if kw else 'batch:sequential',
                       'batch-out:' + ('items' if 'items' in js else js['error']))
@@ -1191,10 +1497,10 @@ def batch_cases(ctx):
                        m=f'res_eqb items_eqb (collect ({"M_batch_pool" if kw else "M_batch"} {st_m} {items})) {obs}',
                        s=f'bs_eqb items_eqb (collect (S_batch {st} {items})) {obs}',
                        py_fail=pf_layout, tags=btags, nontrivial=len(frames) > 1,
-                       key=f'batch{sn}{chain}{sorted(kw.items())}')
+                       key=f'batch{sn}{chain}{sorted(kw.items())}{source}')
             # ---- export
             if (ci % 2 == 0 or len(chain) == 1) and (ci not in forced or ci % 4 == 0):
-                for axis in (0, 1):
+                for axis in ((0, 1) if len(chain) == 1 else (ci % 2,)):
                     try:
                         fr_ = run().to_frame(axis=axis)
                         obs_f = f'(Ok {cont_lit(fr_)[0]})'
@@ -1249,6 +1555,52 @@ def batch_cases(ctx):
                            tags={'op': 'batch.to_bus'}, nontrivial=len(frames) > 1, key=f'tobus{sn}{chain}{sorted(kw.items())}')
 
 
+def batch_meta_cases(ctx):
+    """The Batch's own (not forwarded) interface: name, rename, keys, __iter__, values, shapes, repr, display, to_zip_pickle."""
+    import os
+    import tempfile
+    import static_frame as sf
+    sets = batch_frame_sets()
+    sets.pop('_flat')
+    with tempfile.TemporaryDirectory(prefix='c19bm_') as d:
+        for sn, prs in sorted(sets.items()):
+            for kw in (dict(), dict(max_workers=2, use_threads=True)):
+                mk = lambda: sf.Batch(iter(prs), name='bn', **kw)
+                labels = [l for l, _ in prs]
+                why = []
+                try:
+                    if mk().name != 'bn' or mk().rename('z').name != 'z':
+                        why.append('name/rename')
+                    if [cont_lit(v)[0] for _, v in mk().rename('z').items()] != [cont_lit(f)[0] for _, f in prs]:
+                        why.append('rename changed the items')
+                    if list(mk().keys()) != labels or list(iter(mk())) != labels:
+                        why.append(f'keys()/__iter__ {list(mk().keys())} != {labels}')
+                    if [cont_lit(v)[0] for v in mk().values] != [cont_lit(f)[0] for _, f in prs]:
+                        why.append('values are not the Frames in label order')
+                    sh = mk().shapes
+                    if list(sh.index) != labels or list(sh.values) != [f.shape for _, f in prs]:
+                        why.append(f'shapes {sh.values.tolist()}')
+                    sh2 = (mk() * 2).iloc[0].shapes       # after forwarded operations: shapes of the results
+                    if list(sh2.values) != [(f * 2).iloc[0].shape for _, f in prs]:
+                        why.append(f'shapes after operations {sh2.values.tolist()}')
+                    if 'Batch' not in repr(mk()) or 'bn' not in repr(mk()):
+                        why.append('repr')
+                    disp = str(mk().display())
+                    if not all(str(l) in disp for l in labels):
+                        why.append('display does not list the labels')
+                    if all(isinstance(l, str) for l in labels):
+                        fp = os.path.join(d, f'{sn}{len(kw)}.zip')
+                        (mk() + 1).to_zip_pickle(fp)          # export through StoreClientMixin: exactly the label-wise results
+                        back = [(l, cont_lit(f.rename(None))[0]) for l, f in sf.Bus.from_zip_pickle(fp).items()]
+                        if back != [(l, cont_lit((f + 1).rename(None))[0]) for l, f in prs]:
+                            why.append('to_zip_pickle did not store the label-wise results')
+                except Exception as e:  # noqa
+                    why.append(f'raised {type(e).__name__}: {e}')
+                ctx.count('batch:meta')
+                yield Case('api:batch.meta', {'call': 'Batch name/rename/keys/__iter__/values/shapes/repr/display/to_zip_pickle', 'frames': sn, 'kw': kw},
+                           py_fail='; '.join(why) or None, tags={'op': 'batch.meta', 'pool': bool(kw)}, nontrivial=len(prs) > 1, key=f'bmeta{sn}{sorted(kw.items())}')
+
+
 def split_model_cases(gen):
     """For inputs in a known-finding class the harness only reports the spec verdict; emit a second, untagged,
     model-only case so that the implementation model M (bugs included) is still checked on them."""
@@ -1271,5 +1623,9 @@ def cases(ctx):
     yield from split_model_cases(window_cases(ctx))
     yield from split_model_cases(store_cases(ctx))
     yield from split_model_cases(from_frame_cases(ctx))
+    yield from split_model_cases(extract_array_cases(ctx))
+    yield from meta_cases(ctx)
+    yield from iter_apply_cases(ctx)
     yield from malformed_cases(ctx)
     yield from batch_cases(ctx)
+    yield from batch_meta_cases(ctx)
